@@ -1,6 +1,6 @@
 (** * C09: sparse vector algebra against the dense denotation (all scalar instances). *)
 From Coq Require Import List Arith Bool Lia Sorted Permutation.
-From ET Require Import Model.Scalar Model.Sparse Proofs.SparseBase Proofs.MergeProofs.
+From ET Require Import Model.Scalar Model.Sparse Proofs.SparseBase Proofs.MergeProofs Proofs.MatrixProofs.
 Import ListNotations.
 
 Section Vector.
@@ -423,6 +423,33 @@ Proof.
   { rewrite map_map. simpl. rewrite map_id. eapply Permutation_NoDup; [apply Permutation_sym, HP|apply seq_NoDup]. }
   rewrite <- lookup_rows_map.
   apply lookup_perm_nodup; auto. apply Permutation_map; auto.
+Qed.
+
+(** ** C06: the order in which the collector receives the workers' results
+    does not matter — sorting any arrival order gives the sequential product *)
+Theorem mulvec_arrival_independent : forall (m : csm S) (v1 r : vec S) (pi : list nat),
+  mulvec m v1 = Ok r -> Permutation pi (seq 0 (major m)) ->
+  mulvec_arrival m v1 pi = vents r.
+Proof.
+  intros m v1 r pi H HP. unfold mulvec, mdim in H.
+  destruct (Nat.eqb_spec (major m) (minor m)) as [E|Ne]; cbn [rbind] in H; [|discriminate].
+  destruct (Nat.eqb_spec (major m) (vdim v1)) as [E2|Ne2]; [|discriminate].
+  inversion H; subst r. cbn [vents]. unfold mulvec_arrival.
+  set (f := fun r0 : nat => (r0, vecdot (row_vec m r0) v1)).
+  set (g := fun e : entry => nz (snd e)).
+  symmetry. apply sort_unique.
+  - assert (Hnd : NoDup (map fst (map f pi))).
+    { rewrite map_map. unfold f. cbn [fst]. rewrite map_id. eapply Permutation_NoDup; [apply Permutation_sym, HP|apply seq_NoDup]. }
+    clear -Hnd. induction (map f pi) as [|a l IH]; simpl; [constructor|].
+    inversion Hnd as [|? ? Hn Hnd']; subst. destruct (g a); simpl; auto.
+    constructor; auto. intros Hin. apply Hn. apply in_map_iff in Hin. destruct Hin as [x [Hx Hf]].
+    apply filter_In in Hf. apply in_map_iff. exists x. tauto.
+  - assert (HPm : Permutation (map f pi) (map f (seq 0 (major m)))) by (apply Permutation_map; auto).
+    clear -HPm. induction HPm as [|x l l' HPm IH|x y l|l l' l'' H1 IH1 H2 IH2]; simpl; auto.
+    + destruct (g x); auto.
+    + destruct (g x), (g y); auto. apply perm_swap.
+    + eapply perm_trans; eauto.
+  - apply sorted_filter. unfold f. apply (sorted_rows_map (fun r0 => vecdot (row_vec m r0) v1)).
 Qed.
 
 End Vector.
